@@ -598,6 +598,28 @@ func (fx *Fx) containerGuard(st *State, x ast.Expr) (string, string) {
 	return key, ref
 }
 
+// containerGuardKey: heap key and object of a field selection x.f through a pointer (whatever its protection class).
+func (fx *Fx) containerGuardKey(st *State, x ast.Expr) (string, string) {
+	sel, ok := unparen(x).(*ast.SelectorExpr)
+	if !ok {
+		return "", ""
+	}
+	s := fx.info.Selections[sel]
+	if s == nil || s.Kind() != types.FieldVal || len(s.Index()) != 1 {
+		return "", ""
+	}
+	st2, named, isPtr := structOf(fx.info.TypeOf(sel.X))
+	if named == nil || !isPtr {
+		return "", ""
+	}
+	key := fieldKey(named, st2.Field(s.Index()[0]).Name())
+	save := fx.c.dry
+	fx.c.dry = true
+	ref := fx.eval(st, sel.X).T
+	fx.c.dry = save
+	return key, ref
+}
+
 func (fx *Fx) contentGuardCheck(st *State, l *Loc) {
 	if l.guardKey == "" {
 		return
